@@ -284,7 +284,8 @@ func (vm *Vm) runCatch(ctx context.Context, b []byte) ([]byte, error) {
 		if err != nil {
 			return b, err
 		}
-		b = bh
+		// own copy: the buffer is appended to later, the fetched code may be shared
+		b = append([]byte{}, bh...)
 		vm.Reset()
 	}
 	return b, nil
